@@ -173,6 +173,13 @@ def check_proofs(modules: list[str], extra_files: list[Path] = ()) -> ProofStatu
             bad = [x for x in a if x not in ALLOWED_AXIOMS]
             if bad:
                 st.problems.append(f"theorem {t} depends on {bad}")
+    if os.environ.get("VERIF_TIER_RUNNING") == "thorough" and not st.problems:
+        # thorough tier: the compiled proof modules are replayed by Lean's independent checker
+        t0 = time.time()
+        p = run(["lake", "env", "leanchecker", *modules], cwd=LEAN, timeout=2400)
+        st.leanchecker = f"{'accepted' if p.returncode == 0 else 'REJECTED'}: {len(modules)} modules in {round(time.time() - t0, 1)} s"
+        if p.returncode != 0:
+            st.problems.append("leanchecker rejects the compiled modules: " + (p.stdout + p.stderr)[-600:])
     return st
 
 
@@ -299,4 +306,5 @@ def proof_coverage(st: ProofStatus, checker_cmd: str, trusted: list[str]) -> dic
         "checker_cmd": checker_cmd,
         "trusted_base": trusted,
         "theorems": {t: a for t, a in st.theorems.items()},
+        "leanchecker": getattr(st, "leanchecker", "not run (thorough tier only)"),
     }
